@@ -79,42 +79,7 @@ fn negotiate_never_panics() {
     }
 }
 
-/// C10 cross-check (BOUNDED): the handler's overhead measurement equals the encoder's output length
-/// without payload plus the payload length, on packets with a token of 0..2 bytes, up to two options with
-/// numbers from {1, 20, 300} and value lengths 0..=20 (covers delta/length nibble 13 and delta nibble 14),
-/// payload 0..=3 bytes.  The unbounded statement is the Verus contract in unit msz.
-#[kani::proof]
-#[kani::unwind(24)]
-#[kani::stub(alloc::fmt::format, fmt_stub)]
-fn message_size_matches_encoder() {
-    use coap_lite::{CoapOption, Packet};
-    let mut p = Packet::new();
-    let tkl: usize = kani::any();
-    kani::assume(tkl <= 2);
-    p.set_token(vec![7u8; tkl]);
-    let nopts: u8 = kani::any();
-    kani::assume(nopts <= 2);
-    let mut i = 0;
-    while i < nopts {
-        let k: u8 = kani::any();
-        kani::assume(k < 3);
-        let n: u16 = if k == 0 { 1 } else if k == 1 { 20 } else { 300 };
-        let l: usize = kani::any();
-        kani::assume(l <= 20);
-        p.add_option(CoapOption::from(n), vec![0u8; l]);
-        i += 1;
-    }
-    let pl: usize = kani::any();
-    kani::assume(pl <= 3);
-    p.payload = vec![1u8; pl];
-    let expected = {
-        let mut q = p.clone();
-        q.payload = Vec::new();
-        match q.to_bytes_unlimited() { Ok(b) => b.len() + pl, Err(_) => { assert!(false); 0 } }
-    };
-    match BlockHandler::<u8>::verif_compute_message_size(&mut p) {
-        Ok(n) => assert!(n == expected),
-        Err(_) => assert!(false),
-    }
-    assert!(p.payload.len() == pl);
-}
+// A bounded cross-check of compute_message_size_hack against the encoder on small symbolic packets
+// (token 0..2, <= 2 options, values <= 20 bytes) was tried and abandoned: CBMC did not finish within
+// 20 minutes (BTreeMap + LinkedList + the encoder's raw copies).  The unbounded statement is the Verus
+// contract in unit msz.
